@@ -294,3 +294,58 @@ pub fn split_trajectories(tap: &[TapState]) -> Vec<&[TapState]> {
     }
     v
 }
+
+/// All states of one trajectory are related to their whitened coordinates by ONE affine map `x = F y + mu`
+/// with `g_y = F' g_x` (diagonal and low-rank transformations; the kinetic energy kind does not matter). For
+/// any three states j, k, m this gives the scalar identity `(x_k - x_j) . g_x,m == (y_k - y_j) . g_y,m`,
+/// which needs no knowledge of F. With j = the start state it exposes a start state whose cached whitened
+/// position or gradient belongs to an older transformation ("the next trajectory starts from the draw", and
+/// the consistency of position map and gradient pull-back), with `logdet` compared on the side.
+/// Ok(number of identities checked) or the description of the first one that fails.
+pub fn affine_consistency(tr: &[TapState]) -> Result<u64, String> {
+    let Some(s0) = tr.first() else { return Ok(0) };
+    if !s0.start || s0.failed {
+        return Ok(0);
+    }
+    let fin = |v: &[f64]| v.iter().all(|a| a.is_finite());
+    let d = s0.x.len();
+    if d == 0 || s0.y.len() != d || s0.gx.len() != d || s0.gy.len() != d || !fin(&s0.x) || !fin(&s0.y) || !fin(&s0.gx) || !fin(&s0.gy) {
+        return Ok(0);
+    }
+    let mut n = 0u64;
+    for (pos, sk) in tr.iter().enumerate().skip(1) {
+        if sk.failed || sk.start || sk.x.len() != d || sk.y.len() != d || !fin(&sk.x) || !fin(&sk.y) {
+            continue;
+        }
+        if sk.logdet.is_finite() && s0.logdet.is_finite() && (sk.logdet - s0.logdet).abs() > 1e-9 * (1.0 + s0.logdet.abs()) {
+            return Err(format!("log-determinant of the start state {:e} differs from the one of state {} of the same trajectory ({:e})", s0.logdet, sk.index, sk.logdet));
+        }
+        // m = start state (its cached gradient pull-back) and m = this state (the start state's cached position)
+        for (which, gx, gy) in [("start", &s0.gx, &s0.gy), ("state", &sk.gx, &sk.gy)] {
+            if gx.len() != d || gy.len() != d || !fin(gx) || !fin(gy) {
+                continue;
+            }
+            let (mut lhs, mut rhs, mut mag, mut scale) = (0.0f64, 0.0f64, 0.0f64, 0.0f64);
+            for i in 0..d {
+                let a = (sk.x[i] - s0.x[i]) * gx[i];
+                let b = (sk.y[i] - s0.y[i]) * gy[i];
+                lhs += a;
+                rhs += b;
+                mag += a.abs() + b.abs();
+                scale += (sk.x[i].abs() + s0.x[i].abs()) * gx[i].abs() + (sk.y[i].abs() + s0.y[i].abs()) * gy[i].abs();
+            }
+            if !lhs.is_finite() || !rhs.is_finite() || !scale.is_finite() {
+                continue;
+            }
+            n += 1;
+            let tol = 1e-6 * mag + 1e-8 * scale + 1e-280;
+            if (lhs - rhs).abs() > tol {
+                return Err(format!(
+                    "state {} (tap position {pos}), gradient of the {which}: (x_k - x_0).g_x = {lhs:e} but (y_k - y_0).g_y = {rhs:e} (tolerance {tol:e}): the start state and the states the integrator produced are not related to their whitened coordinates by one affine map",
+                    sk.index
+                ));
+            }
+        }
+    }
+    Ok(n)
+}
